@@ -364,35 +364,93 @@ class SPattern:
             return None
         return SMatch(self, s, el, self.kind, pos, r[0], r[1], pos, n)
 
-    def sub(self, repl, s, count=0):
+    def _template(self, repl):
+        """replacement template -> list of literal element tuples / group numbers (CPython's own parser)"""
+        rl = lift(repl)
+        if any(not isinstance(e, int) for e in rl.el):
+            if any(isinstance(e, int) and e == 92 for e in rl.el):
+                raise Unmodelled('re.sub template with backslash and symbolic parts')
+            return [tuple(rl.el)]
+        import re._parser as P
+        conc = bytes(rl.el) if self.kind is bytes else ''.join(map(chr, rl.el))
+        out = []
+        for item in P.parse_template(conc, self.real):
+            if isinstance(item, int):
+                out.append(item)
+            elif item:
+                out.append(tuple(item) if self.kind is bytes else tuple(map(ord, item)))
+        return out
+
+    def subn(self, repl, s, count=0):
         if not isinstance(s, SSeq) and not isinstance(repl, SSeq):
-            return self.real.sub(repl, s, count)
+            if not callable(repl):
+                return self.real.subn(repl, s, count)
         s = lift(s)
         self._check_kind(s)
-        if callable(repl):
-            raise Unmodelled('re.sub with callable')
-        rel = lift(repl).el
-        if 92 in [e for e in rel if isinstance(e, int)]:
-            raise Unmodelled('re.sub template with backslash')
+        tmpl = None if callable(repl) else self._template(repl)
         out = ()
         last = 0
         k = 0
         for m in self.finditer(s):
-            out += s.el[last:m.start()] + rel
+            out += s.el[last:m.start()]
+            if tmpl is None:
+                r = repl(m)
+                if not isinstance(r, (SSeq, bytes, str)):
+                    raise TypeError('expected str or bytes-like replacement, got %s' % type(r).__name__)
+                out += tuple(lift(r).el) if len(r) else ()
+            else:
+                for item in tmpl:
+                    if isinstance(item, int):
+                        g = m.group(item)
+                        if g is not None and len(g):
+                            out += tuple(lift(g).el)
+                    else:
+                        out += item
             last = m.end()
             k += 1
             if count and k >= count:
                 break
         out += s.el[last:]
-        return mk_seq(out, self.kind)
+        return mk_seq(out, self.kind), k
 
-    def split(self, *a, **kw):
-        raise Unmodelled('re.split')
+    def sub(self, repl, s, count=0):
+        if not isinstance(s, SSeq) and not isinstance(repl, SSeq) and not callable(repl):
+            return self.real.sub(repl, s, count)
+        if not isinstance(s, SSeq) and callable(repl):
+            # concrete subject: the callback may still return symbolic data
+            pass
+        return self.subn(repl, s, count)[0]
 
-    def findall(self, s, *a):
+    def split(self, s, maxsplit=0):
         if not isinstance(s, SSeq):
-            return self.real.findall(s, *a)
-        raise Unmodelled('re.findall on symbolic subject')
+            return self.real.split(s, maxsplit)
+        self._check_kind(s)
+        out = []
+        last = 0
+        n = 0
+        for m in self.finditer(s):
+            if maxsplit and n >= maxsplit:
+                break
+            out.append(mk_seq(s.el[last:m.start()], self.kind))
+            out.extend(m.groups())
+            last = m.end()
+            n += 1
+        out.append(mk_seq(s.el[last:], self.kind))
+        return out
+
+    def findall(self, s, pos=0, endpos=None):
+        if not isinstance(s, SSeq):
+            return self.real.findall(s, pos, *(() if endpos is None else (endpos,)))
+        empty = mk_seq((), self.kind)
+        out = []
+        for m in self.finditer(s, pos, endpos):
+            if self.real.groups == 0:
+                out.append(m.group())
+            elif self.real.groups == 1:
+                out.append(m.groups(empty)[0])
+            else:
+                out.append(m.groups(empty))
+        return out
 
 
 # ------------------------------------------------------------------ NFA formula
